@@ -32,6 +32,14 @@ from dataclasses import dataclass
 from typing import Optional, Dict, List, Any
 
 
+def parse_bool(value: Any) -> Optional[bool]:
+  """Decoder for boolean configuration values: only JSON `true` and `false` are accepted"""
+  if value is None or isinstance(value, bool):
+    return value
+
+  raise ValueError(f"Invalid boolean value '{value}'. Expect: true or false.")
+
+
 class ModuleConfiguration:
   """Base class for module configurations"""
 
@@ -58,7 +66,10 @@ class ModuleConfiguration:
     kwargs = {}
     for field in cls.get_fields():
 
-      field_value = config_dict.get(field.name, cls.get_field_default(field))
+      field_value = config_dict.get(field.name)
+
+      if field_value is None:
+        field_value = cls.get_field_default(field)
 
       decoder = field.metadata.get("decoder")
       if decoder is not None:
@@ -87,7 +98,7 @@ class ModuleConfiguration:
 class GeneralConfiguration(ModuleConfiguration):
   """TT general configuration"""
   log_level: Optional[str] = "INFO"
-  progress_bar: Optional[bool] = True
+  progress_bar: Optional[bool] = dataclasses.field(default=True, metadata={"decoder": parse_bool})
   document_lang: Optional[str] = None
 
   @classmethod
